@@ -46,6 +46,8 @@ for v in vcs:
         if r == z3.unsat:
             break
     print(f"{str(r):8s} {time.time() - t1:6.2f}s {v.name} path={v.path} {v.loc} pc={len(kept)}/{len(v.pc)}")
+    if r != z3.unsat:
+        print("      goal:", str(v.goal)[:int(os.environ.get("DBG_GOAL", "300"))].replace("\n", " "))
     if r == z3.sat and sub:
         m = s.model()
         for c in conjuncts(v.goal):
